@@ -39,6 +39,7 @@ type Prog struct {
 	cg      *callgraph.Graph
 	res     *callResolver
 	idx     *idxFacts
+	pur     *purityResult
 	nInstr  int
 }
 
